@@ -54,6 +54,8 @@ def features(case, root):
             free = [b[1] for b, _ in n[1] if b[5] == 0]
             if len(free) != len(set(free)):
                 feats.add('linutil_repeated_beta')
+        if n[0] in ('Num', 'Lit') and isinstance(n[1], float) and 0 < abs(n[1]) < 2.2250738585072014e-308:
+            feats.add('subnormal_constant')
     return feats
 
 
@@ -126,6 +128,11 @@ def _observe_engine(case):
         res[f'functions:{i}'] = np.asarray(fo.functions, dtype=float).tolist()
         res[f'aggregate:{i}'] = float(
             e.get_value_c(database=database, betas=betas, aggregation=True, prepare_ids=True))
+    # the first formula object again, after its parameters were given new values (free and fixed alike)
+    if case.get('reinit'):
+        exprs[0].change_init_values(dict(case['reinit']))
+        res['after_reinit'] = np.asarray(exprs[0].get_value_c(database=database, betas=None, prepare_ids=True),
+                                         dtype=float).tolist()
     # the same formulas with every shared sub-tree expanded into fresh objects
     b2 = build.Builder(case['shared'], overloads=case['overloads'], unshare=True)
     database2 = build.build_database(case['table'])
@@ -169,6 +176,19 @@ def judge_engine(case) -> Outcome:
     if case['betas']:
         out.classes.append('partial_beta_dict')
     prefix = ''.join(f'[{f}]' for f in sorted(feats))
+    # new values for every parameter of the first formula (a pure function of the spec), applied with
+    # change_init_values after the evaluations above
+    reinit, refs_reinit = {}, None
+    if len(case['roots']) == 1:
+        for n in refsem.walk(case['roots'][0], case['shared']):
+            for bspec in ([n] if n[0] == 'Beta' else [bb for bb, _ in n[1]] if n[0] == 'LinUtil' else []):
+                reinit[bspec[1]] = bspec[2] + (0.25 if len(bspec[1]) % 2 else -0.125)
+        if reinit:
+            try:
+                refs_reinit = reference_values(case, case['roots'][0], betas=reinit)
+            except (refsem.IllPosed, OverflowError):
+                reinit, refs_reinit = {}, None
+    case = dict(case, reinit=reinit)
     res = isolate.call(_observe_engine, case)
     if not res['ok']:
         out.fail(f'{prefix}engine:exception:{res["exc_type"]}',
@@ -194,6 +214,9 @@ def judge_engine(case) -> Outcome:
         else:
             _compare_rows(out, 'expanded (unshared) tree', prefix + 'engine:unshared_value', obs[f'unshared:{i}'],
                           ref, case, root)
+    if refs_reinit is not None and 'after_reinit' in obs and not out.failures:
+        _compare_rows(out, f'the same object after change_init_values({reinit})', prefix + 'engine:after_change_init_values',
+                      obs['after_reinit'], refs_reinit, case, case['roots'][0])
     return out
 
 
